@@ -352,3 +352,29 @@ pub fn parent(inp: &str, outp: &str) {
     }
     let _ = std::fs::remove_file(format!("{}.progress", outp));
 }
+
+/// Log::from_proxy on inputs generated from Log.tla: the header lists are rendered to header lines and the
+/// serialised log is recorded (spec growth beyond the listed properties; judged as drift only)
+pub fn run_log(case: &Value) -> Vec<Value> {
+    let render = |h: &Value| -> (String, String) {
+        let items = h["items"].as_array().unwrap();
+        let v = match h["kind"].as_str().unwrap_or("plain") {
+            "xff" => items.iter().map(|x| x[1].as_str().unwrap().to_string()).collect::<Vec<String>>().join(","),
+            "fwd" => items.iter().enumerate().map(|(i, p)| format!("{}{}={}", if i == 0 { "" } else if i % 2 == 1 { ";" } else { ", " }, p[0].as_str().unwrap(), p[1].as_str().unwrap())).collect::<String>(),
+            _ => items[0][1].as_str().unwrap().to_string(),
+        };
+        (h["name"].as_str().unwrap().to_string(), v)
+    };
+    let config = RouterConfig::default();
+    let mut req = Request::from_config(&config, "/a?b=1".to_string(), Some("example.com".to_string()), Some("http".to_string()), Some("GET".to_string()), None, None);
+    for h in case["req"].as_array().unwrap() {
+        let (n, v) = render(h);
+        req.add_header(n, v, false);
+    }
+    let resp: Vec<Header> = case["resp"].as_array().unwrap().iter().map(|h| { let (n, v) = render(h); Header { name: n, value: v } }).collect();
+    let log = Log::from_proxy(&req, 200, &resp, None, "proxy", 1_700_000_000_000, case["client"].as_str().unwrap_or(""));
+    let v = serde_json::to_value(&log).unwrap();
+    let st = |x: &Value| x.as_str().unwrap_or("").to_string();
+    vec![json!({"ev": "log", "client": case["client"], "req": case["req"], "resp": case["resp"],
+                "out": {"ips": v["ips"], "to": st(&v["to"]), "referer": st(&v["from"]["referer"]), "userAgent": st(&v["from"]["userAgent"]), "contentType": st(&v["from"]["contentType"])}})]
+}
